@@ -119,11 +119,17 @@ func (f *BigFloat) SetElkFloat32(x Float32) *BigFloat {
 
 func (f *BigFloat) Hash() UInt64 {
 	d := xxhash.New()
-	bytes, err := f.AsGoBigFloat().GobEncode()
-	if err != nil {
-		panic(fmt.Sprintf("could not create a hash for big float: %s", err))
+	// hash the value only: BigFloats of different precision (or accuracy) that are `==`
+	// must hash alike, the gob encoding contains both
+	switch {
+	case f.IsNaN():
+		d.WriteString("NaN")
+	case f.AsGoBigFloat().Sign() == 0:
+		d.WriteString("0") // -0.0 == 0.0
+	default:
+		// normalised hexadecimal mantissa without trailing zeros and binary exponent
+		d.WriteString(f.AsGoBigFloat().Text('p', 0))
 	}
-	d.Write(bytes)
 	return UInt64(d.Sum64())
 }
 
